@@ -716,7 +716,7 @@ func checkC08(c *Ctx) {
 		for ci, cfg := range cfgs {
 			wave := []job{{cfg: cfg}}
 			done := 0
-			for len(wave) > 0 && done < budget[ci] {
+			for len(wave) > 0 && done < budget[ci] && c.NumViolations() < 5 { // once the defect is established, stop (deadlocked runs cost 10 s each)
 				if done+len(wave) > budget[ci] {
 					wave = wave[:budget[ci]-done]
 				}
@@ -766,12 +766,15 @@ func checkC08(c *Ctx) {
 			}
 			jobs = append(jobs, job{id: id, cfg: genCfg(c.CaseRng("forcedrnd-cfg", i), 4, 3), rnd: true, pre: []int{i}})
 		}
-		results := runWave(jobs, func(j job) *c08Result {
-			r := c.CaseRng("forcedrnd", j.pre[0])
-			return c08Forced(j.cfg, func(step, n int) int { return r.Intn(n) })
-		})
-		for i, res := range results {
-			record(jobs[i].id, res)
+		for b := 0; b < len(jobs) && c.NumViolations() < 5; b += 24 { // in batches: stop once the defect is established
+			batch := jobs[b:min(b+24, len(jobs))]
+			results := runWave(batch, func(j job) *c08Result {
+				r := c.CaseRng("forcedrnd", j.pre[0])
+				return c08Forced(j.cfg, func(step, n int) int { return r.Intn(n) })
+			})
+			for i, res := range results {
+				record(batch[i].id, res)
+			}
 		}
 	}
 
@@ -786,11 +789,14 @@ func checkC08(c *Ctx) {
 			jobs = append(jobs, job{id: id, cfg: genCfg(c.CaseRng("free-cfg", i), c.Pick(4, 6), 4), pre: []int{i}})
 		}
 		par = 4
-		results := runWave(jobs, func(j job) *c08Result {
-			return c08Free(j.cfg, c.CaseRng("free", j.pre[0]), j.pre[0]%5 == 4)
-		})
-		for i, res := range results {
-			record(jobs[i].id, res)
+		for b := 0; b < len(jobs) && c.NumViolations() < 5; b += 40 {
+			batch := jobs[b:min(b+40, len(jobs))]
+			results := runWave(batch, func(j job) *c08Result {
+				return c08Free(j.cfg, c.CaseRng("free", j.pre[0]), j.pre[0]%5 == 4)
+			})
+			for i, res := range results {
+				record(batch[i].id, res)
+			}
 		}
 	}
 
